@@ -172,6 +172,8 @@ static void report(const std::string &fn, const std::string &form, int rc, doubl
 }
 // out-parameters are pre-filled with stale, finite, non-zero data: a field the function forgets to write then shows as a wrong value
 static const a_complex STALE = {(a_real)777.25, (a_real)-555.5};
+static bool same_r(a_real a, a_real b) { return a == b || (a != a && b != b); }
+static bool same_c(a_complex a, a_complex b) { return same_r(a.real, b.real) && same_r(a.imag, b.imag); }
 static std::string zs(a_complex z) { return num((double)z.real) + (z.imag < 0 || (z.imag == 0 && std::signbit((double)z.imag)) ? "" : "+") + num((double)z.imag) + "i"; }
 
 static void unary_all()
@@ -213,6 +215,19 @@ static void misc_all()
         for (a_real im : axis)
         {
             a_complex z = {re, im};
+            {
+                // construction, comparison and projection: rect stores both parts, eq/ne compare both parts, the Riemann projection of a
+                // finite number is the number itself
+                a_complex r0 = STALE, pj = STALE, pk = z;
+                a_complex_rect(&r0, re, im);
+                a_complex_proj(&pj, z);
+                a_complex_proj_(&pk);
+                a_complex other = {re, (a_real)(im + 1)}, other2 = {(a_real)(re + 1), im};
+                bool d1 = other.imag != im, d2 = other2.real != re; // (adding 1 may be absorbed for huge values)
+                if (!(r0.real == re && r0.imag == im)) { R.viol("complex|rect|value", "a_complex_rect does not store the two parts", "{\"z\":\"" + zs(z) + "\"}"); }
+                if (!a_complex_eq(z, r0) || a_complex_ne(z, r0) || (d1 && (a_complex_eq(z, other) || !a_complex_ne(z, other))) || (d2 && (a_complex_eq(z, other2) || !a_complex_ne(z, other2)))) { R.viol("complex|eq|value", "a_complex_eq / a_complex_ne do not compare both parts", "{\"z\":\"" + zs(z) + "\"}"); }
+                if (!(pj.real == re && pj.imag == im && pk.real == re && pk.imag == im)) { R.viol("complex|proj|finite", "the projection of a finite number is not the number itself", "{\"z\":\"" + zs(z) + "\"}"); }
+            }
             C zq = tocq(z), want;
             double ratio;
             auto as_c = [](Q v) { return mk(v, 0); };
@@ -317,6 +332,7 @@ static void binary_all()
                 }
                 w = STALE;
                 a_complex_pow_real(&w, x, s);
+                { a_complex wi = x; a_complex_pow_real_(&wi, s); if (!same_c(w, wi)) { R.viol("complex|pow_real|in-place", "a_complex_pow_real_ (in place) and a_complex_pow_real disagree", "{\"fn\":\"pow_real\"}"); } }
                 if ((xr != 0 || xi != 0) && !extreme(xr) && !extreme(xi) && !extreme(s))
                 {
                     Q sq = s;
@@ -353,12 +369,14 @@ static void binary_all()
                     if ((xr != 0 || xi != 0) && std::fabs((double)yr) <= 64 && std::fabs((double)yi) <= 64 && !extreme(xr) && !extreme(xi) && !extreme(yr) && !extreme(yi))
                     {
                         w = STALE; a_complex_pow(&w, x, y);
+                        { a_complex wi = x; a_complex_pow_(&wi, y); if (!same_c(w, wi)) { R.viol("complex|pow|in-place", "a_complex_pow_ (in place) and a_complex_pow disagree", "{\"fn\":\"pow\"}"); } }
                         rc = judge([yq](C t) { return cpowq(t, yq); }, xq, tocq(w), ratio, want);
                         if (rc == 1) { C w2q = cpowq(xq, yq * (1 + 4 * (Q)EPS)); Q extra = cabsq(w2q - want); if (cabsq(tocq(w) - want) <= KTOL * ((Q)EPS * cabsq(want) + extra)) { rc = 0; } }
                         report("pow", "value", rc, ratio, zs(x) + " ^ " + zs(y), tocq(w), want);
                         if (!(yr == 1 && yi == 0) && !(yr == 0 && yi == 0))
                         {
                             w = STALE; a_complex_logb(&w, x, y);
+                            { a_complex wi = x; a_complex_logb_(&wi, y); if (!same_c(w, wi)) { R.viol("complex|logb|in-place", "a_complex_logb_ (in place) and a_complex_logb disagree", "{\"fn\":\"logb\"}"); } }
                             rc = judge([yq](C t) { return clogq(t) / clogq(yq); }, xq, tocq(w), ratio, want);
                             if (rc == 1) { C w2q = clogq(xq) / clogq(yq * (1 + 4 * (Q)EPS)); Q extra = cabsq(w2q - want); if (cabsq(tocq(w) - want) <= KTOL * ((Q)EPS * cabsq(want) + extra)) { rc = 0; } }
                             report("logb", "value", rc, ratio, zs(x) + " base " + zs(y), tocq(w), want);
